@@ -353,5 +353,424 @@ theorem C18_plain_restored (n : String) (c : List Int) (p : Int) (k : LightKind)
   refine ⟨s', hrun.block fuel (by simpa [lightAst, settingsAst, hin.1] using hf), hadds.trace, ?_⟩
   simp [applyTrace, applyEvent, upd, hD, Dev.setColor, Dev.setPower]
 
+/-! ## 2a. a multizone light -/
+
+theorem ready_emit {vm : Vm.State} (h : Ready vm) (e : Event) : Ready (vm.emit e) :=
+  ⟨h.mode, h.dur, h.time, h.run⟩
+
+/-- `set "n" zone i` -/
+theorem stmt_set_zone (n : String) (zc : Nat) (i : Nat) (c : List Int) (s : S) (hr : Ready s.vm)
+    (hk : HasKind s.vm n (.multizone zc)) (hc : HoldsColor s.vm c) (hin : InRange c)
+    (hi : i ≤ 65534) :
+    ∃ s', (∀ f, 5 ≤ f →
+        execStmt f (.action .set (.cons (.zone (.str n) ⟨Snapshot.lit i, none⟩) .nil)) s = (.normal, s')) ∧
+      Adds s s' [.setZones n i ((i : Int) + 1) c 0] := by
+  let s2 : S := (((s.setReg .name (.str n)).setReg .firstZone (.int i)).setReg .lastZone .none).setReg
+    .operand (.operand .mzLight)
+  have hr2 : Ready s2.vm :=
+    (((hr.setReg _ _ (by decide) (by decide) (by decide)).setReg _ _ (by decide) (by decide)
+      (by decide)).setReg _ _ (by decide) (by decide) (by decide)).setReg _ _ (by decide)
+      (by decide) (by decide)
+  obtain ⟨l, hl, hkind⟩ := hk.of_sameDir (sameDir_of_lights (a := s.vm) (b := s2.vm) rfl)
+  have hc2 : HoldsColor s2.vm c :=
+    (((hc.setReg _ _ (by decide) (by decide) (by decide) (by decide)).setReg _ _ (by decide)
+      (by decide) (by decide) (by decide)).setReg _ _ (by decide) (by decide) (by decide)
+      (by decide)).setReg _ _ (by decide) (by decide) (by decide) (by decide)
+  have hname : s2.vm.regs .name = .str n := by simp [s2, S.setReg, State.setReg]
+  have hdo := C15.doColor_zones s2.vm l zc i i c 0 (by simp [s2, S.setReg, State.setReg])
+    (by rw [hname]; exact hl) hkind (by simp [s2, S.setReg, State.setReg])
+    (.inr ⟨by simp [s2, S.setReg, State.setReg], rfl⟩) (by omega) (by omega) (by omega)
+    (color_wire hr2 hc2 hin) hr2.dur_wire
+  rw [light?_name hl] at hdo
+  refine ⟨{ s2 with vm := s2.vm.emit (.setZones n i ((i : Int) + 1) c 0) }, ?_,
+    ⟨ready_emit hr2 _, sameDir_of_lights rfl, rfl⟩⟩
+  intro f hf
+  obtain ⟨g, rfl⟩ : ∃ g, f = g + 5 := ⟨f - 5, by omega⟩
+  simp only [Snapshot.lit]
+  rw [show g + 5 = (g + 2) + 3 from rfl, exec_action_single (g + 2) .set _ s hr.time hr.run,
+    show g + 2 + 1 = g + 3 from rfl, exec_zone_single]
+  simp only [beq_self_eq_true, if_true]
+  rw [device_running _ _ (by rw [hdo]; exact hr2.run), hdo]
+
+def zoneStmts (n : String) (zi : List Int × Nat) : List Stmt :=
+  settingsAst zi.1 ++ [Stmt.action .set (.cons (.zone (.str n) ⟨Snapshot.lit zi.2, none⟩) .nil)]
+
+def zoneEvent (n : String) (zi : List Int × Nat) : Event :=
+  .setZones n zi.2 ((zi.2 : Int) + 1) zi.1 0
+
+theorem zones_run (n : String) (zc : Nat) : ∀ (zones : List (List Int)) (k : Nat) (s : S),
+    Ready s.vm → HasKind s.vm n (.multizone zc) → (∀ z ∈ zones, InRange z) →
+    k + zones.length ≤ 65535 →
+    ∃ s', RunsTo 5 ((zones.zipIdx k).map (zoneStmts n)).flatten s s' ∧
+      Adds s s' ((zones.zipIdx k).map (zoneEvent n)).reverse := by
+  intro zones
+  induction zones with
+  | nil =>
+    intro k s hr _ _ _
+    exact ⟨s, RunsTo.nil 5 s, hr, SameDir.rfl', rfl⟩
+  | cons z rest ih =>
+    intro k s hr hk hin hlen
+    have hz := hin z (by simp)
+    simp only [List.length_cons] at hlen
+    have h0 := loadColor_adds hz.1 hr
+    obtain ⟨s2, hx2, ha2⟩ := stmt_set_zone n zc k z (loadColor s z) h0.ready (hk.of_sameDir h0.dir)
+      (loadColor_holds hz.1) hz (by omega)
+    obtain ⟨s3, hx3, ha3⟩ := ih (k + 1) s2 ha2.ready ((hk.of_sameDir h0.dir).of_sameDir ha2.dir)
+      (fun x hx => hin x (by simp [hx])) (by omega)
+    refine ⟨s3, ?_, ?_⟩
+    · simp only [List.zipIdx_cons, List.map_cons, List.flatten_cons]
+      exact RunsTo.append
+        (RunsTo.append ((settings_run z s).mono (by omega)) (RunsTo.single hx2)) hx3
+    · simp only [List.zipIdx_cons, List.map_cons, List.reverse_cons]
+      exact (h0.trans ha2).trans ha3
+
+theorem lightAst_multizone (n : String) (zones : List (List Int)) :
+    lightAst (.multizone n zones) = ((zones.zipIdx 0).map (zoneStmts n)).flatten := rfl
+
+
+theorem applyTrace_snoc (evs : List Event) (e : Event) (D : DeviceState) :
+    applyTrace (evs ++ [e]) D = applyTrace evs (applyEvent e D) := by
+  rw [applyTrace_append]; rfl
+
+/-- the zone commands of one light, applied in order, on a device with any content: zones
+`k … k + zones.length - 1` take the captured colours, the others keep theirs -/
+theorem zones_device (n : String) : ∀ (zones : List (List Int)) (k : Nat) (D : DeviceState)
+    (cur : List (List Int)), D n = some (.multizone cur) → k + zones.length ≤ cur.length →
+    ∃ R, applyTrace ((zones.zipIdx k).map (zoneEvent n)).reverse D n = some (.multizone R) ∧
+      R.length = cur.length ∧
+      ∀ i, R[i]? = if k ≤ i ∧ i < k + zones.length then zones[i - k]? else cur[i]? := by
+  intro zones
+  induction zones with
+  | nil =>
+    intro k D cur hD _
+    refine ⟨cur, by simpa [applyTrace] using hD, rfl, ?_⟩
+    intro i
+    have : ¬ (k ≤ i ∧ i < k + ([] : List (List Int)).length) := by simp
+    rw [if_neg this]
+  | cons z rest ih =>
+    intro k D cur hD hlen
+    simp only [List.length_cons] at hlen
+    let cur1 := C15.applyZones cur k (k + 1) z
+    have hD1 : applyEvent (zoneEvent n (z, k)) D n = some (.multizone cur1) := by
+      simp only [zoneEvent, applyEvent, upd, if_true, hD, Option.map_some, Dev.setZones]
+      have e1 : (Int.toNat (k : Int)) = k := by omega
+      have e2 : (Int.toNat ((k : Int) + 1)) = k + 1 := by omega
+      rw [e1, e2]
+    have hl1 : cur1.length = cur.length := C15.applyZones_length _ _ _ _
+    obtain ⟨R, hR, hRl, hRi⟩ := ih (k + 1) _ cur1 hD1 (by omega)
+    refine ⟨R, ?_, by omega, ?_⟩
+    · simp only [List.zipIdx_cons, List.map_cons, List.reverse_cons]
+      rw [applyTrace_snoc]
+      exact hR
+    · intro i
+      rw [hRi i, C15.applyZones_getElem?]
+      by_cases h1 : k + 1 ≤ i ∧ i < k + 1 + rest.length
+      · have h2 : k ≤ i ∧ i < k + (z :: rest).length := by simp; omega
+        rw [if_pos h1, if_pos h2]
+        have : i - k = (i - (k + 1)) + 1 := by omega
+        rw [this, List.getElem?_cons_succ]
+      · rw [if_neg h1]
+        by_cases h3 : i = k
+        · subst h3
+          have h2 : i ≤ i ∧ i < i + (z :: rest).length := by simp
+          have h4 : i ≤ i ∧ i < i + 1 := by omega
+          rw [if_pos h2, if_pos h4, List.getElem?_eq_getElem (by omega : i < cur.length)]
+          simp
+        · have h2 : ¬ (k ≤ i ∧ i < k + (z :: rest).length) := by simp; omega
+          have h4 : ¬ (k ≤ i ∧ i < k + 1) := by omega
+          rw [if_neg h2, if_neg h4]
+
+theorem settingsAst_length_le (c : List Int) : (settingsAst c).length ≤ 4 := by
+  simp only [settingsAst, List.length_map, List.length_zip, List.length_cons, List.length_nil]
+  omega
+
+theorem zoneStmts_length_le (n : String) (zones : List (List Int)) (k : Nat) :
+    ((zones.zipIdx k).map (zoneStmts n)).flatten.length ≤ 5 * zones.length := by
+  induction zones generalizing k with
+  | nil => simp
+  | cons z rest ih =>
+    have := ih (k + 1)
+    have h4 := settingsAst_length_le z
+    simp only [List.zipIdx_cons, List.map_cons, List.flatten_cons, List.length_append, zoneStmts,
+      List.length_cons, List.length_nil]
+    omega
+
+/-- the events the capture script of a multizone light sends, oldest first -/
+def zoneEvents (n : String) (zones : List (List Int)) : List Event :=
+  (zones.zipIdx 0).map (zoneEvent n)
+
+/-- **C18_zone_restored.**  The lines written for a multizone light `n` (any number of zones up
+to 65535, each colour component anywhere in 0…65535), run from any ready state, send one zone
+command per zone, `setZones n i (i+1) zones[i] 0` for `i = 0, 1, …`; a device with the same
+number of zones in any other state ends with exactly the captured colour in every zone. -/
+theorem C18_zone_restored (n : String) (zones : List (List Int)) (s : S)
+    (hr : Ready s.vm) (hk : HasKind s.vm n (.multizone zones.length))
+    (hin : ∀ z ∈ zones, InRange z) (hlen : zones.length ≤ 65535)
+    (fuel : Nat) (hf : 5 * zones.length + 6 ≤ fuel) (D : DeviceState) (cur : List (List Int))
+    (hD : D n = some (.multizone cur)) (hcur : cur.length = zones.length) :
+    ∃ s', execBlock fuel (Block.ofList (lightAst (.multizone n zones))) s = (.normal, s') ∧
+      s'.vm.trace = (zoneEvents n zones).reverse ++ s.vm.trace ∧
+      applyTrace (zoneEvents n zones).reverse D n = some (.multizone zones) := by
+  obtain ⟨s', hrun, hadds⟩ := zones_run n zones.length zones 0 s hr hk hin (by omega)
+  obtain ⟨R, hR, hRl, hRi⟩ := zones_device n zones 0 D cur hD (by omega)
+  have hlenAst := zoneStmts_length_le n zones 0
+  refine ⟨s', ?_, hadds.trace, ?_⟩
+  · rw [lightAst_multizone]
+    exact hrun.block fuel (by omega)
+  · rw [zoneEvents, hR]
+    congr 2
+    apply List.ext_getElem?
+    intro i
+    rw [hRi i]
+    by_cases h : i < zones.length
+    · have : 0 ≤ i ∧ i < 0 + zones.length := by omega
+      rw [if_pos this]; rfl
+    · have : ¬ (0 ≤ i ∧ i < 0 + zones.length) := by omega
+      rw [if_neg this, List.getElem?_eq_none (by omega), List.getElem?_eq_none (by omega)]
+
+
+/-! ## 2b. a matrix light -/
+
+theorem find?_unique {α : Type} (p : α → Bool) (L : List α) (x : α) (hx : x ∈ L) (hp : p x = true)
+    (hu : ∀ y ∈ L, p y = true → y = x) : L.find? p = some x := by
+  cases h : L.find? p with
+  | none =>
+    have := List.find?_eq_none.mp h x hx
+    simp [hp] at this
+  | some y =>
+    rw [hu y (List.mem_of_find?_eq_some h) (List.find?_some h)]
+
+/-- the stage the capture writes for cell number `k` of a matrix `w` wide: that cell alone -/
+def cellStage (w : Nat) (ck : List Int × Nat) : Stage :=
+  ⟨ck.2 / w, ck.2 / w, ck.2 % w, ck.2 % w, ck.1.map Val.int⟩
+
+/-- every cell is covered by exactly its own stage -/
+theorem snapshot_cell (h w : Nat) (cells : List (List Int)) (hlen : cells.length = h * w)
+    (r c : Nat) (hr : r < h) (hc : c < w) :
+    Matrix.cell ⟨h, w, (cells.zipIdx 0).map (cellStage w)⟩ r c =
+      some ((cells.getD (r * w + c) []).map Val.int) := by
+  have hk : r * w + c < cells.length := by
+    rw [hlen]
+    have : (r + 1) * w ≤ h * w := Nat.mul_le_mul_right w hr
+    rw [Nat.succ_mul] at this
+    omega
+  have hdiv : (r * w + c) / w = r := by
+    rw [Nat.add_comm, Nat.add_mul_div_right _ _ (by omega), Nat.div_eq_of_lt hc, Nat.zero_add]
+  have hmod : (r * w + c) % w = c := by
+    rw [Nat.add_comm, Nat.add_mul_mod_self_right, Nat.mod_eq_of_lt hc]
+  rw [C15.cell_eq]
+  rw [find?_unique _ _ (cellStage w (cells.getD (r * w + c) [], r * w + c))]
+  · rfl
+  · simp only [List.mem_reverse, List.mem_map]
+    refine ⟨(cells.getD (r * w + c) [], r * w + c), ?_, rfl⟩
+    rw [List.mem_zipIdx_iff_getElem?]
+    simp [List.getD, List.getElem?_eq_getElem hk]
+  · simp [C15.covers, cellStage, hdiv, hmod]
+  · intro y hy hp
+    simp only [List.mem_reverse, List.mem_map] at hy
+    obtain ⟨⟨c', k'⟩, hmem, rfl⟩ := hy
+    have hm := List.mem_zipIdx hmem
+    have hp := (C15.C15_rect_inclusive (k' / w) (k' / w) (k' % w) (k' % w) (c'.map .int) r c).mp hp
+    have hk' : k' = r * w + c := by
+      have := Nat.div_add_mod k' w
+      have e1 : k' / w = r := by omega
+      have e2 : k' % w = c := by omega
+      rw [e1, e2, Nat.mul_comm] at this
+      omega
+    subst hk'
+    have hc' : c' = cells.getD (r * w + c) [] := by
+      rw [hm.2.2]
+      simp [List.getD, List.getElem?_eq_getElem hk]
+    rw [hc']
+
+
+theorem loadColor_name {s : S} {c : List Int} (hc : c.length = 4) :
+    (loadColor s c).vm.regs .name = s.vm.regs .name := by
+  obtain ⟨a, b, d, e, rfl⟩ := length4 hc
+  rw [loadColor_vm]
+  simp [State.setReg]
+
+/-- `stage row r column c` -/
+theorem stmt_stage_cell (m : Matrix) (r ci : Nat) (c : List Int) (s : S) (hr : Ready s.vm)
+    (hm : s.vm.matrix = some m) (hc : HoldsColor s.vm c) (hrow : r < m.height)
+    (hcol : ci < m.width) :
+    ∃ s', (∀ f, 4 ≤ f →
+        execStmt f (.stage (some ⟨Snapshot.lit r, none⟩) (some ⟨Snapshot.lit ci, none⟩) false) s =
+          (.normal, s')) ∧
+      Adds s s' [] ∧ s'.vm.regs .name = s.vm.regs .name ∧
+      s'.vm.matrix = some { m with stages := m.stages ++ [⟨r, r, ci, ci, c.map Val.int⟩] } := by
+  let s2 : S := ((((s.setReg .operand (.operand .matrix)).setReg .firstRow (.int r)).setReg
+    .lastRow .none).setReg .firstColumn (.int ci)).setReg .lastColumn .none
+  have hr2 : Ready s2.vm :=
+    ((((hr.setReg _ _ (by decide) (by decide) (by decide)).setReg _ _ (by decide) (by decide)
+      (by decide)).setReg _ _ (by decide) (by decide) (by decide)).setReg _ _ (by decide)
+      (by decide) (by decide)).setReg _ _ (by decide) (by decide) (by decide)
+  have hc2 : HoldsColor s2.vm c :=
+    ((((hc.setReg _ _ (by decide) (by decide) (by decide) (by decide)).setReg _ _ (by decide)
+      (by decide) (by decide) (by decide)).setReg _ _ (by decide) (by decide) (by decide)
+      (by decide)).setReg _ _ (by decide) (by decide) (by decide) (by decide)).setReg _ _
+      (by decide) (by decide) (by decide) (by decide)
+  have hcol2 := getColor_of_holds hr2 hc2
+  have hdo := C15.doColor_stage s2.vm m r r ci ci (by simp [s2, S.setReg, State.setReg]) hm
+    (by
+      have e1 : s2.vm.regs .firstRow = .int r := by simp [s2, S.setReg, State.setReg]
+      have e2 : s2.vm.regs .lastRow = .none := by simp [s2, S.setReg, State.setReg]
+      rw [e1, e2]; exact C15.C15_omitted_end_is_start r _)
+    (by
+      have e1 : s2.vm.regs .firstColumn = .int ci := by simp [s2, S.setReg, State.setReg]
+      have e2 : s2.vm.regs .lastColumn = .none := by simp [s2, S.setReg, State.setReg]
+      rw [e1, e2]; exact C15.C15_omitted_end_is_start ci _)
+    (.inr ⟨hrow, hcol⟩)
+  rw [hcol2] at hdo
+  let vm3 : Vm.State :=
+    { s2.vm with matrix := some { m with stages := m.stages ++ [⟨r, r, ci, ci, c.map Val.int⟩] } }
+  refine ⟨{ s2 with vm := vm3 }, ?_, ⟨⟨hr2.mode, hr2.dur, hr2.time, hr2.run⟩, sameDir_of_lights rfl, rfl⟩,
+    by simp [vm3, s2, S.setReg, State.setReg], rfl⟩
+  intro f hf
+  obtain ⟨g, rfl⟩ : ∃ g, f = g + 4 := ⟨f - 4, by omega⟩
+  simp only [Snapshot.lit]
+  rw [exec_stage_cell, device_running _ _ (by rw [hdo]; exact hr2.run), hdo]
+
+def cellStmts (w : Nat) (ck : List Int × Nat) : List Stmt :=
+  settingsAst ck.1 ++ [Stmt.stage (some ⟨Snapshot.lit (ck.2 / w : Nat), none⟩)
+    (some ⟨Snapshot.lit (ck.2 % w : Nat), none⟩) false]
+
+theorem lightAst_matrix (n : String) (h w : Nat) (cells : List (List Int)) :
+    lightAst (.matrix n h w cells) =
+      [.action .set (.cons (.matrixBlock (.str n)
+        (Block.ofList ((cells.zipIdx 0).map (cellStmts w)).flatten)) .nil)] := rfl
+
+theorem cells_run (h w : Nat) : ∀ (cells : List (List Int)) (k : Nat) (s : S) (stages : List Stage),
+    Ready s.vm → s.vm.matrix = some ⟨h, w, stages⟩ → (∀ c ∈ cells, InRange c) →
+    k + cells.length ≤ h * w →
+    ∃ s', RunsTo 4 ((cells.zipIdx k).map (cellStmts w)).flatten s s' ∧ Adds s s' [] ∧
+      s'.vm.regs .name = s.vm.regs .name ∧
+      s'.vm.matrix = some ⟨h, w, stages ++ (cells.zipIdx k).map (cellStage w)⟩ := by
+  intro cells
+  induction cells with
+  | nil =>
+    intro k s stages hr hm _ _
+    exact ⟨s, RunsTo.nil 4 s, ⟨hr, SameDir.rfl', rfl⟩, rfl, by simpa using hm⟩
+  | cons c rest ih =>
+    intro k s stages hr hm hin hlen
+    have hc := hin c (by simp)
+    simp only [List.length_cons] at hlen
+    have hkw : k < h * w := by omega
+    have hw : 0 < w := by
+      rcases Nat.eq_zero_or_pos w with h0 | h0
+      · subst h0; simp at hkw
+      · exact h0
+    have h0 := loadColor_adds hc.1 hr
+    obtain ⟨s2, hx2, ha2, hn2, hm2⟩ := stmt_stage_cell ⟨h, w, stages⟩ (k / w) (k % w) c (loadColor s c)
+      h0.ready (by rw [loadColor_matrix hc.1]; exact hm) (loadColor_holds hc.1)
+      ((Nat.div_lt_iff_lt_mul hw).mpr hkw) (Nat.mod_lt _ hw)
+    obtain ⟨s3, hx3, ha3, hn3, hm3⟩ := ih (k + 1) s2 _ ha2.ready hm2
+      (fun x hx => hin x (by simp [hx])) (by omega)
+    refine ⟨s3, ?_, (h0.trans ha2).trans ha3, by rw [hn3, hn2, loadColor_name hc.1], ?_⟩
+    · simp only [List.zipIdx_cons, List.map_cons, List.flatten_cons]
+      exact RunsTo.append
+        (RunsTo.append ((settings_run c s).mono (by omega)) (RunsTo.single hx2)) hx3
+    · rw [hm3]
+      simp [List.zipIdx_cons, cellStage]
+
+theorem cellStmts_length_le (w : Nat) (cells : List (List Int)) (k : Nat) :
+    ((cells.zipIdx k).map (cellStmts w)).flatten.length ≤ 5 * cells.length := by
+  induction cells generalizing k with
+  | nil => simp
+  | cons z rest ih =>
+    have := ih (k + 1)
+    have h4 := settingsAst_length_le z
+    simp only [List.zipIdx_cons, List.map_cons, List.flatten_cons, List.length_append, cellStmts,
+      List.length_cons, List.length_nil]
+    omega
+
+
+theorem index_lt {h w r c : Nat} (hr : r < h) (hc : c < w) : r * w + c < h * w := by
+  have : (r + 1) * w ≤ h * w := Nat.mul_le_mul_right w hr
+  rw [Nat.succ_mul] at this
+  omega
+
+theorem tile_cells (h w : Nat) (cells : List (List Int)) (hlen : cells.length = h * w) :
+    C15.tile h w (fun r c => cells.getD (r * w + c) []) = cells := by
+  apply C15.tile_ext h w _ _ (C15.tile_length _ _ _) hlen
+  intro r c hr hc
+  rw [C15.tile_getElem? h w _ r c hr hc]
+  have hk : r * w + c < cells.length := by rw [hlen]; exact index_lt hr hc
+  simp [List.getD, List.getElem?_eq_getElem hk]
+
+theorem matrix_runs (n : String) (h w : Nat) (cells : List (List Int)) (s : S)
+    (hr : Ready s.vm) (hk : HasKind s.vm n (.matrix h w)) (hin : ∀ c ∈ cells, InRange c)
+    (hlen : cells.length = h * w) :
+    ∃ s', RunsTo (5 * cells.length + 8) (lightAst (.matrix n h w cells)) s s' ∧
+      Adds s s' [.setTile n cells 0 w h] := by
+  obtain ⟨l, hl, hkind⟩ := hk
+  let s1 : S := { s with vm := { s.vm.setReg .name (.str n) with matrix := some ⟨h, w, []⟩ } }
+  have hr1 : Ready s1.vm := by
+    have := hr.setReg .name (.str n) (by decide) (by decide) (by decide)
+    exact ⟨this.mode, this.dur, this.time, this.run⟩
+  have hd1 : SameDir s.vm s1.vm := sameDir_of_lights rfl
+  obtain ⟨s2, hx2, ha2, hn2, hm2⟩ := cells_run h w cells 0 s1 [] hr1 rfl hin (by omega)
+  let s3 : S := s2.setReg .operand (.operand .matrixLight)
+  have hr3 : Ready s3.vm := ha2.ready.setReg _ _ (by decide) (by decide) (by decide)
+  have hd3 : SameDir s.vm s3.vm := (hd1.trans ha2.dir).trans (sameDir_of_lights rfl)
+  obtain ⟨l3, hl3, hk3⟩ := HasKind.of_sameDir hd3 ⟨l, hl, hkind⟩
+  have hname3 : s3.vm.regs .name = .str n := by
+    have : s3.vm.regs .name = s2.vm.regs .name := by simp [s3, S.setReg, State.setReg]
+    rw [this, hn2]
+    simp [s1, State.setReg]
+  have hcells : ∀ r c, r < h → c < w →
+      C15.cellWire s3.vm (Matrix.cell ⟨h, w, (cells.zipIdx 0).map (cellStage w)⟩ r c) =
+        some (cells.getD (r * w + c) []) := by
+    intro r c hr' hc'
+    rw [snapshot_cell h w cells hlen r c hr' hc']
+    have hk : r * w + c < cells.length := by rw [hlen]; exact index_lt hr' hc'
+    have hmem : cells.getD (r * w + c) [] ∈ cells := by
+      simp [List.getD, List.getElem?_eq_getElem hk]
+    have hw := wireColor_ints _ (hin _ hmem).2
+    simp only [C15.cellWire, State.asRawColor, hr3.mode_raw, convert, Option.bind_some]
+    exact hw
+  have hdo := C15.doColor_matrixLight s3.vm l3 h w ⟨h, w, (cells.zipIdx 0).map (cellStage w)⟩
+    (fun r c => cells.getD (r * w + c) []) 0 (by simp [s3, S.setReg, State.setReg])
+    (by rw [hname3]; exact hl3) hk3
+    (by
+      have : s3.vm.matrix = s2.vm.matrix := rfl
+      rw [this, hm2]; simp)
+    hcells hr3.dur_wire
+  rw [tile_cells h w cells hlen, light?_name hl3] at hdo
+  refine ⟨{ s3 with vm := s3.vm.emit (.setTile n cells 0 w h) }, ?_,
+    ⟨ready_emit hr3 _, hd3, ?_⟩⟩
+  · rw [lightAst_matrix]
+    apply RunsTo.single
+    intro f hf
+    obtain ⟨g, rfl⟩ : ∃ g, f = g + 3 := ⟨f - 3, by omega⟩
+    rw [exec_action_single g .set _ s hr.time hr.run]
+    simp only []
+    rw [exec_matrixBlock g .set n _ s l h w hl hkind hr.run]
+    have hb := hx2.block g (by
+      have := cellStmts_length_le w cells 0
+      omega)
+    rw [hb]
+    simp only [beq_self_eq_true, if_true]
+    rw [device_running _ _ (by rw [hdo]; exact hr3.run), hdo]
+  · have : s3.vm.trace = s2.vm.trace := rfl
+    simp only [State.emit, this, ha2.trace]
+    rfl
+
+/-- **C18_matrix_restored.**  The block written for a matrix light `n` of any height and width
+(`cells.length = h * w`, each component anywhere in 0…65535), run from any ready state, sends
+exactly one `setTile` whose cells are exactly the captured cells, in order; a device in any
+other state ends with exactly the captured cells. -/
+theorem C18_matrix_restored (n : String) (h w : Nat) (cells : List (List Int)) (s : S)
+    (hr : Ready s.vm) (hk : HasKind s.vm n (.matrix h w)) (hin : ∀ c ∈ cells, InRange c)
+    (hlen : cells.length = h * w) (fuel : Nat) (hf : 5 * cells.length + 10 ≤ fuel)
+    (D : DeviceState) (cur : List (List Int)) (hD : D n = some (.matrix cur)) :
+    ∃ s', execBlock fuel (Block.ofList (lightAst (.matrix n h w cells))) s = (.normal, s') ∧
+      s'.vm.trace = [.setTile n cells 0 w h] ++ s.vm.trace ∧
+      applyTrace [.setTile n cells 0 w h] D n = some (.matrix cells) := by
+  obtain ⟨s', hrun, hadds⟩ := matrix_runs n h w cells s hr hk hin hlen
+  refine ⟨s', hrun.block fuel (by simp [lightAst]; omega), hadds.trace, ?_⟩
+  simp [applyTrace, applyEvent, upd, hD, Dev.setTile]
+
+
 end C18
 end Bardolph
